@@ -293,8 +293,10 @@ theorem orphan_after_invoke_witness :
 
 /-! ## The code as it is now (decisions read from vm.rs by translate/c08_code.py) -/
 
-/-- vm.rs closes the mark of a frame popped by the error unwind, closes a shared open mark when its frame is popped
-by an invocation, and pushes no dummy frame under an outermost handler frame.  (A change back breaks this
+/-- vm.rs closes the mark of a frame popped by the error unwind — and every frame an error drops is popped by that
+loop: the translator also checks that the error branch goes straight into it, that nothing clears the frames before
+it and that only the `pop_count == 0` guard leaves it before the mark is closed —, closes a shared open mark when
+its frame is popped by an invocation, and pushes no dummy frame under an outermost handler frame.  (A change back breaks this
 obligation; the regression programs findings/C08-K08c.scm, C08-K08d.scm then fail in the differential run.) -/
 theorem code_mark_discipline :
     GenCode.codeCfg.closeOnUnwind = true ∧ GenCode.codeCfg.closeWhenShared = true ∧
